@@ -229,10 +229,18 @@ def write_evidence(prop, tier, seed, results, undecided, violations, known_hits,
 
 
 def property_assumptions(prop):
-    p = VERIF / "contracts" / "property_assumptions.json"
-    if p.exists():
-        return json.loads(p.read_text()).get(prop, [])
-    return []
+    """Property-specific assumptions: the level_note of the MANIFEST entry (what is assumed / outside
+    the contracts for this property) plus the open known findings that split obligations of it."""
+    out = []
+    m = VERIF / "MANIFEST.json"
+    if m.exists():
+        for c in json.loads(m.read_text()).get("checks", []):
+            if c["property_id"] == prop:
+                out.append(f"{prop} (MANIFEST level_note): {c['level_note']}")
+    for k in vlib.load_known():
+        if k["property"] == prop and k["record"].startswith("open:"):
+            out.append(f"open known finding {k['id']}: obligation {k['obligation']} is proved only outside region `{k['region']}`")
+    return sorted(set(out))
 
 
 def vlib_scan(sel, vobs):
